@@ -149,6 +149,17 @@ class _InlineExpr(ast.NodeTransformer):
                 hb = _nodoc(h.body)
                 a = h.args
                 params = [x.arg for x in a.args][1:]
+                # leading locals bound once to side-effect-free expressions (`reversed_key = (b, a)`) are substituted away, provided
+                # nothing else is stored to in the helper
+                lead = []
+                while (hb and isinstance(hb[0], (ast.Assign, ast.AnnAssign)) and hb[0].value is not None and pure(hb[0].value)
+                       and isinstance(hb[0].targets[0] if isinstance(hb[0], ast.Assign) and len(hb[0].targets) == 1 else getattr(hb[0], "target", None), ast.Name)):
+                    t0 = hb[0].targets[0] if isinstance(hb[0], ast.Assign) else hb[0].target
+                    lead.append(t0.id)
+                    hb = subst(hb[1:], {t0.id: hb[0].value})
+                stores = [n.id for q in hb for n in ast.walk(q) if isinstance(n, ast.Name) and isinstance(n.ctx, ast.Store)]
+                if lead and (stores or len(set(lead)) != len(lead) or set(lead) & set(params)):
+                    return node
                 ok_sig = (not (a.vararg or a.kwarg or a.kwonlyargs or a.defaults) and len(node.args) <= len(params)
                           and all(pure(x) for x in node.args) and all(k.arg and pure(k.value) for k in node.keywords))
                 m = dict(zip(params, node.args))
